@@ -298,6 +298,9 @@ func (b *builder) build(v ssa.Value) *Expr {
 		if l := b.arrayLit(x); l != nil {
 			return l
 		}
+		if l := b.encodedInt(x); l != nil {
+			return l
+		}
 		args := []*Expr{b.expr(x.X)}
 		for _, o := range []ssa.Value{x.Low, x.High, x.Max} {
 			if o != nil {
@@ -568,9 +571,12 @@ func newReachDefs(b *builder) *reachDefs {
 				if !cc.IsInvoke() && cc.StaticCallee() == nil {
 					args = append([]ssa.Value{cc.Value}, args...)
 				}
-				for _, arg := range args {
+				for ai, arg := range args {
 					root, path := addrPath(stripConv(arg))
 					if a, ok := root.(*ssa.Alloc); ok {
+						if b.w.argReadOnly(x, ai, 0) {
+							continue
+						}
 						call, _ := in.(*ssa.Call)
 						rd.defs[a] = append(rd.defs[a], rdDef{in: in, path: path, esc: call, blk: blk, idx: i})
 					}
@@ -1014,4 +1020,172 @@ func opaque(e *Expr) bool {
 		}
 	}
 	return false
+}
+
+// encodedInt recognises  bz := make([]byte, N); binary.<Order>.PutUintN(bz, x)  and returns
+// enc:<order><bits>(x). Any other use of the buffer that could write to it defeats the match.
+func (b *builder) encodedInt(sl *ssa.Slice) *Expr {
+	a, ok := sl.X.(*ssa.Alloc)
+	if !ok {
+		return nil
+	}
+	arr, ok := deref(a.Type()).Underlying().(*types.Array)
+	if !ok {
+		return nil
+	}
+	if bt, ok := arr.Elem().Underlying().(*types.Basic); !ok || bt.Kind() != types.Uint8 {
+		return nil
+	}
+	if ar := a.Referrers(); ar == nil || len(*ar) != 1 {
+		return nil // the array is used other than through this slice
+	}
+	var enc *Expr
+	vals := []ssa.Value{sl}
+	// the slice may be stored into a named result and reloaded; follow simple local copies
+	seen := map[ssa.Value]bool{}
+	for len(vals) > 0 {
+		v := vals[0]
+		vals = vals[1:]
+		if seen[v] {
+			continue
+		}
+		seen[v] = true
+		refs := v.Referrers()
+		if refs == nil {
+			continue
+		}
+		for _, r := range *refs {
+			switch x := r.(type) {
+			case *ssa.Call:
+				cc := x.Common()
+				sc := cc.StaticCallee()
+				if sc == nil || FnPkg(sc) == nil || FnPkg(sc).Path() != "encoding/binary" {
+					continue
+				}
+				if len(cc.Args) == 3 && cc.Args[1] == v {
+					recv := typeShort(cc.Args[0].Type())
+					order := "?"
+					if strings.Contains(recv, "bigEndian") {
+						order = "be"
+					} else if strings.Contains(recv, "littleEndian") {
+						order = "le"
+					}
+					bits := strings.TrimPrefix(sc.Name(), "PutUint")
+					if enc != nil {
+						return nil
+					}
+					enc = &Expr{Op: "enc", Name: order + bits, Args: []*Expr{b.expr(cc.Args[2])}}
+				} else if len(cc.Args) == 2 && cc.Args[0] == v && (sc.Name() == "PutUvarint" || sc.Name() == "PutVarint") {
+					if enc != nil {
+						return nil
+					}
+					enc = &Expr{Op: "enc", Name: "varint", Args: []*Expr{b.expr(cc.Args[1])}}
+				}
+			case *ssa.Store:
+				if x.Val == v {
+					if al, ok := x.Addr.(*ssa.Alloc); ok {
+						// reloaded copies
+						if ar := al.Referrers(); ar != nil {
+							for _, rr := range *ar {
+								if u, ok := rr.(*ssa.UnOp); ok && u.Op == token.MUL {
+									vals = append(vals, u)
+								}
+							}
+						}
+					}
+				}
+			case *ssa.IndexAddr:
+				return nil // element writes
+			}
+		}
+	}
+	return enc
+}
+
+// argReadOnly: the in-scope callee provably does not write through its ai-th argument
+// (no store rooted at the parameter, parameter not passed on, not captured, not returned).
+func (w *World) argReadOnly(call ssa.CallInstruction, ai int, depth int) bool {
+	cc := call.Common()
+	if cc.IsInvoke() || depth > 2 {
+		return false
+	}
+	sc := cc.StaticCallee()
+	if sc == nil {
+		return false
+	}
+	sc = w.unwrap(sc)
+	if sc == nil || sc.Blocks == nil || !w.inSet[sc] || ai >= len(sc.Params) {
+		return false
+	}
+	p := sc.Params[ai]
+	derived := map[ssa.Value]bool{p: true}
+	changed := true
+	for changed {
+		changed = false
+		for _, blk := range sc.Blocks {
+			for _, in := range blk.Instrs {
+				switch x := in.(type) {
+				case *ssa.FieldAddr:
+					if derived[x.X] && !derived[x] {
+						derived[x] = true
+						changed = true
+					}
+				case *ssa.IndexAddr:
+					if derived[x.X] && !derived[x] {
+						derived[x] = true
+						changed = true
+					}
+				case *ssa.Phi:
+					for _, e := range x.Edges {
+						if derived[e] && !derived[x] {
+							derived[x] = true
+							changed = true
+						}
+					}
+				}
+			}
+		}
+	}
+	for _, blk := range sc.Blocks {
+		for _, in := range blk.Instrs {
+			switch x := in.(type) {
+			case *ssa.Store:
+				if derived[x.Addr] || derived[x.Val] {
+					return false
+				}
+			case ssa.CallInstruction:
+				c2 := x.Common()
+				for j, a := range c2.Args {
+					if derived[stripConv(a)] {
+						if !w.argReadOnly(x, j, depth+1) {
+							return false
+						}
+					}
+				}
+				if c2.IsInvoke() && derived[stripConv(c2.Value)] {
+					return false
+				}
+			case *ssa.MakeClosure:
+				for _, bd := range x.Bindings {
+					if derived[bd] {
+						return false
+					}
+				}
+			case *ssa.Return:
+				for _, rv := range x.Results {
+					if derived[stripConv(rv)] {
+						return false
+					}
+				}
+			case *ssa.MakeInterface:
+				if derived[x.X] {
+					// escapes into an interface value; only acceptable when unused beyond a nil check
+					if refs := x.Referrers(); refs != nil && len(*refs) > 0 {
+						return false
+					}
+				}
+			}
+		}
+	}
+	return true
 }
